@@ -831,6 +831,12 @@ parameters by position and data flow), so behaviour-preserving edits leave it tr
 * `takeOnlyOnIdMatch` — `Event.take` requires `f.id = wire seq` (`own_response_or_error`).
 * `peekErrorCloses`, `bodyErrorClosesUnlessKafka` — `peekErr` and `finish io` close the conn (`timeout_closes`,
   `unreadable_body_closes`): a frame is consumed whole or the conn is closed.
+* `hooksInsideCriticalSections` — the trace-acceptance tie: each `C.*` / `T.*` hook is recorded while the mutex
+  that makes its event atomic is held (wlock, rlock, the group mutex; `run` is a single goroutine), so the recorded
+  order is an order in which the critical sections really happened.
+* `promisePairedWithRequest`, `runAnswersItsOwnRequest` — TransportConn `Delivery`: the response of an exchange
+  goes to the promise created with that request.
+* `loneOnlyWhenAlone` — `Event.lone` requires `aloneWaiting`.
 * `wireSitesThreaded`, `remainOnlyFromPrims`, `batchCallbacksThreaded` — the hypothesis of
   `wire_discipline_consumes_frame` below.
 * `batchCloseDiscards`, `discardRewindsToWire`, `batchCloseKeepsOnlyKafkaOrShortBuffer`, `readValueAccountsBytes`,
@@ -849,7 +855,9 @@ theorem structural_facts_hold :
     Gen.MuxFacts.releaseInsideRun = true ∧ Gen.MuxFacts.idgenAdvancesPerExchange = true ∧
     Gen.MuxFacts.roundTripChecksId = true ∧ Gen.MuxFacts.discardRewindsToWire = true ∧
     Gen.MuxFacts.wireSitesThreaded = true ∧ Gen.MuxFacts.remainOnlyFromPrims = true ∧
-    Gen.MuxFacts.batchCallbacksThreaded = true := by decide
+    Gen.MuxFacts.batchCallbacksThreaded = true ∧ Gen.MuxFacts.hooksInsideCriticalSections = true ∧
+    Gen.MuxFacts.promisePairedWithRequest = true ∧ Gen.MuxFacts.runAnswersItsOwnRequest = true ∧
+    Gen.MuxFacts.loneOnlyWhenAlone = true := by decide
 
 /-- **Every reader in the size-threading discipline consumes its frame whole.**  Model/BatchBytes.lean spells out the
 magic-0/1 path; the rest of message_reader.go (record batches, varints, record headers, both decompression sites,
